@@ -530,6 +530,40 @@ pub fn run(out: &mut Out, thorough: bool, seed: u64) {
         if seen.insert(ca_wire(c)) { n_pol += 1; run.out.count("policy corpus"); run.all_targets(c, false); }
     }
 
+    // near-twin siblings: two branches at EQUAL odds that differ in one leaf only, the two leaves
+    // being "close" (same lock kind in different units, same consensus-relevant bits, same hash
+    // value under another hash function).  The compiler memoises sub-compilations in a map keyed
+    // by (policy, sat_prob, dissat_prob) under the hand-written Ord of Policy, so such siblings
+    // are where a key collision would hand one branch the other's compilation.
+    let twins: Vec<(A, A)> = vec![
+        (A::After(9), A::After(1_000_000_000)),
+        (A::After(100), A::After(500_000_100)),
+        (A::Older(10), A::Older(4_194_314)),
+        (A::Older(5), A::Older(65_541)),
+        (A::Older(5), A::Older(4_194_309)),
+        (A::Older(1), A::Older(65_537)),
+        (A::After(1), A::After(2)),
+        (A::Hash(0, 0), A::Hash(1, 0)),
+        (A::Hash(0, 0), A::Hash(0, 1)),
+        (A::Hash(2, 0), A::Hash(3, 0)),
+    ];
+    let mut twin_pols: Vec<CA> = vec![];
+    for (x, y) in &twins {
+        let (x, y) = (CA::Leaf(x.clone()), CA::Leaf(y.clone()));
+        let bx = CA::And(vec![x.clone(), key(1)]);
+        let by = CA::And(vec![y.clone(), key(2)]);
+        twin_pols.push(CA::Or(vec![(1, bx.clone()), (1, by.clone())]));
+        twin_pols.push(CA::Or(vec![(1, by.clone()), (1, bx.clone())]));
+        twin_pols.push(CA::And(vec![key(0), CA::Or(vec![(1, bx.clone()), (1, by.clone())])]));
+        twin_pols.push(CA::Thresh(1, vec![bx.clone(), by.clone()]));
+        twin_pols.push(CA::Or(vec![(1, CA::And(vec![key(1), x.clone()])), (1, CA::And(vec![key(2), y.clone()]))]));
+        twin_pols.push(CA::Or(vec![(1, key(0)), (1, CA::Or(vec![(1, bx.clone()), (1, by.clone())]))]));
+        twin_pols.push(CA::Thresh(2, vec![key(0), bx, by]));
+    }
+    for c in &twin_pols {
+        if seen.insert(ca_wire(c)) { n_pol += 1; run.out.count("policy near-twin siblings"); run.all_targets(c, false); }
+    }
+
     // rare branches: with extreme odds the compiler trades witness size for script size, which
     // is where its special cases (thresh -> multi / multi_a, andor, or_i orderings) are actually
     // chosen.  Every k-of-n over keys (n <= 4) and every depth-1 shape over keys, as the 1-in-1000
